@@ -28,22 +28,37 @@ RULE = (
     "their typing alias (Tuple, List, Dict, ...) when the term mentions one; routes: runtime.is_assignable, get_assignability_error, and the "
     "checker on `x: T = <literal>` (literal-display objects only). Non-trivial = membership decided (not UNKNOWN) and "
     "o's top constructor matches T's top constructor (verdict depends on something below the top level); distinct by "
-    "(render(T), source(o), route)."
+    "(render(T), source(o), route). Plus (I) the TypedDict INHERITANCE family generated in vp.prelude: roots total / "
+    "total=False x own keys each declared plain / Required / NotRequired / ReadOnly / Required[ReadOnly] / "
+    "NotRequired[ReadOnly] (one qualifier, all four, or the two ReadOnly combinations); every one-level subclass (x total / "
+    "total=False x no own key or one of plain / NotRequired / Required / ReadOnly / NotRequired[ReadOnly]); two-level "
+    "subclasses below every subclass that added no or only optional keys (quick: a seeded sample of 48, thorough: all); "
+    "classes with two bases of different totality; the membership term of each class is read from CPython's own "
+    "__required_keys__ / __optional_keys__ / __annotations__; objects per class: dicts with all keys / none / required "
+    "only / optional only / all but one / exactly one / one value of the wrong type / one undeclared key more, the "
+    "universe's dicts, a few non-dicts. Plus (F) the classes bool / Enum / IntEnum / Flag / IntFlag and the unions of "
+    "their literals (tygen.finite_literal_unions: all named members in both spellings and reversed, all but one, all plus "
+    "None / another literal / str, Flag: plus zero, plus every value up to all bits), judged also on the flag instances "
+    "that iterating the class does not yield (zero, composites, IntFlag value with an undeclared bit)."
 )
 ASSUMPTIONS = [
     "vp.ty.member is the membership oracle (int->float->complex promotion, bool is int, structural TypedDict, "
     "NewType membership of strict-subclass instances is UNKNOWN)",
     "pairs whose membership is UNKNOWN are skipped and counted",
+    "TypedDict inheritance family: which keys a class has and which of them are required is what CPython recorded on the "
+    "class object (typing_extensions.TypedDict: __annotations__, __required_keys__, __optional_keys__)",
     "NewType: a plain instance of the supertype is treated as a member at run time (objects are indistinguishable); "
     "the static-literal route is not judged for NewType targets",
 ]
 FLOORS = {
     "quick": {"distinct_nontrivial": 8000, "runtime_pairs": 60000, "assign_lines": 10000, "member_true": 5000, "member_false": 20000,
               "wide_union_types": 65, "wide_union_pairs": 5000, "wide_union_cross_type_equal_pairs": 180,
-              "near_miss_objects": 1300, "near_miss_objects_nested": 400, "tuple_subclass_objects": 1300, "bare_typing_alias_types": 45},
+              "near_miss_objects": 1300, "near_miss_objects_nested": 400, "tuple_subclass_objects": 1300, "bare_typing_alias_types": 45,
+              "typeddict_family_types": 115, "typeddict_family_objects": 1350, "typeddict_family_assign_lines": 700, "finite_class_types": 50},
     "thorough": {"distinct_nontrivial": 50000, "runtime_pairs": 400000, "assign_lines": 60000,
                  "wide_union_types": 65, "wide_union_pairs": 5000, "wide_union_cross_type_equal_pairs": 180,
-                 "near_miss_objects": 1300, "near_miss_objects_nested": 400, "tuple_subclass_objects": 1300, "bare_typing_alias_types": 45},
+                 "near_miss_objects": 1300, "near_miss_objects_nested": 400, "tuple_subclass_objects": 1300, "bare_typing_alias_types": 45,
+                 "typeddict_family_types": 230, "typeddict_family_objects": 2700, "typeddict_family_assign_lines": 1400, "finite_class_types": 50},
 }
 BATCH = 200
 
@@ -188,6 +203,11 @@ def blame(o, t: Ty, accepts, style: int = 0, spelling_only: bool = False) -> str
         return "MixTuple<-tuple"
     if t.kind == "MixTuple" and isinstance(o, tuple):
         return "MixTuple<-tuple"
+    if t.kind == "TypedDict" and isinstance(o, dict) and any(not isinstance(k, str) for k in o) and ty.member(
+        {k: v for k, v in o.items() if isinstance(k, str)}, t
+    ) is True:
+        # a key that is not a str is the only thing that keeps the dict out of the TypedDict
+        return "TypedDict<-dict/non-str-key"
     if is_family_typeddict(t) and isinstance(o, dict):
         return f"TypedDict:inherited<-dict/{family_key_blame(o, t, accepts)}"
     if t.kind == "TypedDict" and isinstance(o, dict):
@@ -219,9 +239,12 @@ def family_key_blame(o: dict, t: Ty, accepts) -> str:
         return (f"{state}-key:{qual}:{where}(declaring-class-total={prelude.TDI_SPEC[declared_in][0]})"
                 f"/class-total={total}/required-keys={'none' if not any(r for _n, (_t, r) in t.args[0]) else 'some'}")
 
-    for name, (ft, _req) in t.args[0]:
-        if name not in o and agree({**o, name: good.get(ft.extra, 1)}):
+    omitted = [(name, ft) for name, (ft, _req) in t.args[0] if name not in o]
+    for name, ft in omitted:
+        if agree({**o, name: good.get(ft.extra, 1)}):
             return describe(name, "omitted")
+    if len(omitted) > 1 and agree({**o, **{name: good.get(ft.extra, 1) for name, ft in omitted}}):
+        return describe(omitted[0][0], "omitted")  # several omitted keys matter together: name the first
     for name, (_ft, _req) in t.args[0]:
         if name in o and agree({k: v for k, v in o.items() if k != name}):
             return describe(name, "present")
